@@ -260,6 +260,18 @@ def rt_instr(ctx, name):
         n += 1
         ctx.state((b,))
         check_roundtrip(ctx, b, {'family': 'round trip: instructions'})
+    # the same fixed-width operands spelled in hex (the listing may spell them differently from the source that made the bytes)
+    if refasm.kind(name) in ('byte1', 'u8u8', 'ms'):
+        width = {'byte1': 1, 'u8u8': 2, 'ms': 3}[refasm.kind(name)]
+        for tup in itertools.product((0, 1, 2, 127, 128, 255), repeat=width):
+            prog = [SENT_A, ('I', name, [('x', bytes([v])) for v in tup]), SENT_B]
+            try:
+                b = P_.compile_script(refasm.source(prog, Style()))
+            except BaseException:
+                continue
+            n += 1
+            ctx.state((b,))
+            check_roundtrip(ctx, b, {'family': 'round trip: instructions', 'operands': 'hex'})
     ctx.evaluations += max(n - 1, 0)
 
 
@@ -396,6 +408,22 @@ def rt_macro(ctx, case):
     ctx.evaluations += 1
 
 
+def rt_def_handle(ctx, h):
+    """DEF with every handle, from every source spelling the compiler takes"""
+    n = 0
+    for sp in ('x%02x' % h, 'd%d' % h, '%d' % h):
+        for form in ('def %s { true }', 'true if { def %s { false } } call x' + '%02x' % h):
+            try:
+                b = P_.compile_script(form % sp)
+            except BaseException:
+                ctx.count('source rejected by the compiler (no round-trip claim)')
+                continue
+            n += 1
+            ctx.state((b,))
+            check_roundtrip(ctx, b, {'family': 'round trip: DEF handles'})
+    ctx.evaluations += max(n - 1, 0)
+
+
 def rt_vector(ctx, path):
     b = bytes.fromhex(open(path).read().strip())
     ctx.state((path,))
@@ -474,6 +502,7 @@ def blocks(tier, seed):
         Block('roundtrip_nop_codes', list(range(92, 256)), rt_nop, 'every NOP code x every count byte', nshards=32),
         Block('roundtrip_control_programs', lambda s, n: spaces.progs_upto(3 if q else 4, 'full', s, n), rt_ctrl,
               'every control program of the C11 space', nshards=64),
+        Block('roundtrip_def_handles', list(range(256)), rt_def_handle, 'DEF 0..255 from the x / d / plain spellings, bare and inside IF', nshards=32),
         Block('roundtrip_deep_nesting', [(k, d) for k in DEEP_KINDS for d in range(1, (130 if q else 200) + 1)], rt_deep,
               'each block kind (and a rotation of all kinds, and DEF around IFs) nested 1..%d deep around one instruction' % (130 if q else 200), nshards=32),
         Block('roundtrip_statements_placed_by_macros', [(b, m) for b in MACRO_BODIES for m in MACRO_TEXTS], rt_macro,
